@@ -34,8 +34,11 @@ IMPORTS = ("From Coq Require Import PrimFloat.\n"
 CASE_T = "props * props * props * rawdata * option value * nat * nat * option value"
 # file tie (Proofs/ScaleFile.v check_file_scaled): the bridge bytes -> typed values / property
 # dictionaries and the composed reads, evaluated on the very bytes npTDMS read
+# DAQmx channels are compared LAZILY as well (Proofs/ScaleFileDaqmxLazy.v check_file_scaled_dq =
+# check_file_scaled + scaled_read_lazy_daqmx, the lazy scaled read of ANY channel, on the bytes)
 FILE_IMPORTS = ("From Coq Require Import ZArith PrimFloat.\n"
-                "From NpTdms Require Import Base.Bytes Model.ScaleGraph Proofs.ScaleFile.\n")
+                "From NpTdms Require Import Base.Bytes Model.ScaleGraph Proofs.ScaleFile "
+                "Proofs.ScaleFileDaqmxLazy.\n")
 FILE_CASE_T = "bytes * bytes * option value * nat * nat * option value * bool * option value"
 RAW = L.RAW
 REAL = [d for d in L.NUMERIC if not d.startswith("complex")]
@@ -458,7 +461,7 @@ def run_case(run, case, stats):
     fterm = "(%s, %s, %s, %d%%nat, %d%%nat, %s, %s, %s)" % (
         H.chex(content), H.chex(b"/'g'/'c'"), obs(e_full), o, l, obs(e_win),
         "true" if plain else "false",
-        obs(l_win) if plain and (isinstance(l_win, Raised) or l_win.dtype.kind != "c") else "None")
+        obs(l_win) if isinstance(l_win, Raised) or l_win.dtype.kind != "c" else "None")
     return term, rep, key, e_full, fterm
 
 
@@ -481,23 +484,29 @@ def correspondence(run, terms):
 def file_correspondence(run, terms, stats):
     """Proofs/ScaleFile.v on the file BYTES: scaled_read_eager / scaled_window_eager /
     scaled_read_lazy (reader models + bridge + scaling model) against channel[:] and
-    read_data(o, l) of TdmsFile.read / TdmsFile.open on the same bytes."""
+    read_data(o, l) of TdmsFile.read / TdmsFile.open on the same bytes; and
+    Proofs/ScaleFileDaqmxLazy.v scaled_read_lazy_daqmx (DAQmx channels: the per-scaler lazy
+    reads of C11_lazy decoded and scaled; plain channels: the same path as scaled_read_lazy)
+    against read_data(o, l) of TdmsFile.open for EVERY case."""
     picked = terms[:run.pick(160, 2000)]
     cases = [t[4] for t in picked]
-    bad, errors = H.run_sharded(run.pid, FILE_IMPORTS, FILE_CASE_T, "check_file_scaled", cases, shard=12,
+    bad, errors = H.run_sharded(run.pid, FILE_IMPORTS, FILE_CASE_T, "check_file_scaled_dq", cases, shard=12,
                                 tag="file")
     run.corr_errors(errors)
     run.cov["traces_validated_against_impl"] += len(cases) - len(bad)
     stats["file_tie_cases"] = len(cases)
+    stats["file_tie_daqmx_lazy_picked"] = sum(1 for t in picked if t[1].get("daqmx") is not None)
     for i in bad[:3]:
         _, rep, key, e_full, fterm = picked[i]
         rc, out = H.coq_print_terms(run.pid, FILE_IMPORTS, [
             "let '(data, path, _, o, l, _, _, _) := (%s) : %s in (scaled_read_eager data path, "
-            "scaled_window_eager data path o l, scaled_read_lazy data path (Z.of_nat o) (Some (Z.of_nat l)))"
+            "scaled_window_eager data path o l, scaled_read_lazy data path (Z.of_nat o) (Some (Z.of_nat l)), "
+            "scaled_read_lazy_daqmx data path (Z.of_nat o) (Some (Z.of_nat l)))"
             % (fterm, FILE_CASE_T)], tag="fshow%d" % i)
         run.violation("corr-file-" + key, "Coq file-level scaled read and npTDMS disagree (%s): implementation "
                       "returned %r" % (key, e_full), rep, kind="correspondence-broken",
-                      theorem="Proofs.ScaleFile.scaled_read_eager/lazy vs TdmsChannel[:] / read_data",
+                      theorem="Proofs.ScaleFile.scaled_read_eager/lazy, Proofs.ScaleFileDaqmxLazy.scaled_read_lazy_daqmx vs "
+                              "TdmsChannel[:] / read_data",
                       actual=repr(e_full), model=out[-3000:], no_input=True)
 
 
@@ -674,9 +683,10 @@ def main():
         "build, %d channel(s) accepted within 2 ulp" % stats["table_within_2ulp"],
         "NaN payloads and signs are not compared",
         "cyclic definitions (RecursionError) are outside the domain (wf_graph)",
-        "lazy == eager on BYTES is proved in Props/C13_file.v (plain channels; DAQmx: eager only) and the bridge "
-        "(bytes -> typed values, properties -> dictionaries, group-path lookup) is compared with npTDMS on the "
-        "first %d generated files (check_file_scaled)" % stats.get("file_tie_cases", 0)]
+        "lazy == eager on BYTES is proved in Props/C13_file.v (plain channels) and Props/C13_daqmx_lazy.v (DAQmx "
+        "channels, mixed files) and the bridge (bytes -> typed values, properties -> dictionaries, group-path "
+        "lookup) is compared with npTDMS on the first %d generated files (check_file_scaled_dq; %d of them DAQmx "
+        "channels, compared lazily as well)" % (stats.get("file_tie_cases", 0), stats.get("file_tie_daqmx_lazy_picked", 0))]
     run.finish()
 
 
